@@ -96,13 +96,13 @@ external(_loc.qualname_of(_cf.ThreadPoolExecutor), params={"max_workers": "int |
          ensures=["pool_bounds == old(pool_bounds) + [val_of(max_workers) if max_workers is not None else -1]"],
          note="ThreadPoolExecutor(max_workers=n): at most n tasks in flight; None means the library default (not the user's bound)")
 external("opaque.map", params={"self": "Opaque", "fn": "Opaque", "iterable": "list[Opaque]"}, returns="list[FileContext]",
-         modifies=["ghost:fs"], raises_any=True, ensures=["len(result) == len(iterable)"],
-         note="executor.map(f, xs) yields f(x) for every x in input order; a worker's exception is re-raised")
+         modifies=["ghost:fs", "ghost:mapped"], raises_any=True, ensures=["len(result) == len(iterable)", "mapped == old(mapped) + [iterable]"],
+         note="executor.map(f, xs) yields f(x) for every x in input order; a worker's exception is re-raised; the work list is recorded in the ghost `mapped`")
 external("opaque.shutdown", params=None)
 external("opaque.get_provider", params=None, returns="Opaque", pure=True)
 external("opaque.apply", params={"self": "Opaque", "codemod_id": "str", "context": "CodemodExecutionContext"}, returns="ResultSet", raises_any=True,
          note="detector.apply: the result set for this codemod (reads result files / runs semgrep); no project writes")
-contract("dyn:BaseCodemod.get_files_to_analyze", trusted=True,
+contract("dyn:BaseCodemod.get_files_to_analyze", trusted=True, functional=True,
          params={"self": "BaseCodemod", "context": "CodemodExecutionContext", "results": "ResultSet | None"}, returns="list[Path]",
          note="dynamic dispatch; both implementations are verified for C05 where claimed")
 REG = __import__("pyvc.api", fromlist=["REG"]).REG
@@ -112,8 +112,11 @@ _AGGS = (("_changesets_by_codemod", "list[ChangeSet]"), ("_failures_by_codemod",
 contract("codemodder.codemods.base_codemod.BaseCodemod._apply", props=["C11", "C09"],
          params={"self": "BaseCodemod", "context": "CodemodExecutionContext", "rules": "list[str]"},
          modifies=["context._changesets_by_codemod", "context._failures_by_codemod", "context._unfixed_findings_by_codemod",
-                   "context.dependencies", "ghost:fs", "ghost:pool_bounds"], raises_any=True,
-         ensures=[("no more than --max-workers files are processed at the same time: the only pool created is bounded by context.max_workers",
+                   "context.dependencies", "ghost:fs", "ghost:pool_bounds", "ghost:mapped"], raises_any=True,
+         ensures=[("the files processed are exactly the codemod's own selection get_files_to_analyze(context, results): nothing left behind by "
+                   "another codemod (failures, changesets, caches) filters or extends the work list",
+                   "mapped == old(mapped) or any(mapped == old(mapped) + [old(self.get_files_to_analyze(context, r))] for r in ANY('ResultSet | None'))"),
+                  ("no more than --max-workers files are processed at the same time: the only pool created is bounded by context.max_workers",
                    "pool_bounds == old(pool_bounds) or pool_bounds == old(pool_bounds) + [context.max_workers]")] +
                  [(f"results are merged under this codemod's own id only ({f})",
                    f"all(implies(q != self.id, lookup(context.{f}, q, typed_empty('{t}')) == lookup(old(context.{f}), q, typed_empty('{t}'))) for q in ANY('str'))")
